@@ -239,6 +239,21 @@ def gen_history(r, tier):
         h.ins_pod(dst2)
         h.query(q)
         h.query((q[0], q[1], pr, n2))
+    # motif 6: a verdict that depends on the labels of the SOURCE namespace; the Namespace object is then updated in place
+    if r.random() < 0.3 and len(h.nss) >= 2:
+        nsa, nsb = r.sample(h.nss, 2)
+        h.ins_ns({'name': nsa, 'labels': {'env': 'a'}})
+        a = {'kind': 'Pod', 'ns': nsa, 'name': 'lsrc', 'labels': {'app': 'a'}, 'ports': [], 'replicas': None, 'owner': {'name': 'own-lsrc', 'kind': 'ReplicaSet'}}
+        b = {'kind': 'Pod', 'ns': nsb, 'name': 'ldst', 'labels': {'app': 'l'}, 'ports': [], 'replicas': None, 'owner': {'name': 'own-ldst', 'kind': 'ReplicaSet'}}
+        h.ins_pod(a); h.ins_pod(b)
+        h.ins_np({'ns': nsb, 'name': 'npnslabel', 'podSelector': {'matchLabels': {'app': 'l'}}, 'policyTypes': ['Ingress'],
+                  'ingress': [{'from': [{'namespaceSelector': {'matchLabels': {'env': 'a'}}}]}]})
+        q = (('pod', nsa + '/lsrc'), ('pod', nsb + '/ldst'), 'TCP', 80)
+        h.query(q)
+        h.ins_ns({'name': nsa, 'labels': {'env': 'b'}})
+        h.query(q)
+        h.ins_ns({'name': nsa, 'labels': {'env': 'a'}})
+        h.query(q)
     # motif 5: one port number allowed on one protocol only, asked about on all three in a row: what is remembered for one protocol
     # says nothing about another
     if r.random() < 0.3:
